@@ -35,9 +35,9 @@ type c06Case struct {
 }
 
 type c06Path struct {
-	Resources []int  `json:"resources"` // indexes of the resources visited after the root
-	Final     string `json:"final"`     // text of the final $dynamicRef
-	FinalKind string `json:"final_kind"`
+	Resources []int    `json:"resources"` // indexes of the resources visited after the root
+	Final     string   `json:"final"`     // text of the final $dynamicRef
+	FinalKind string   `json:"final_kind"`
 	Hops      []string `json:"hops"`
 }
 
